@@ -27,12 +27,14 @@ def stream_lines():
         "FRAnonhex": "1;255;4;0;2;zz" + words_to_hex(1, 1, 0)[2:],
         "FRAempty": "1;255;4;0;2;",
         "FRAlong": "1;255;4;0;2;" + words_to_hex(1, 1, 0, 0),
+        "FCAlong": "1;255;4;0;0;" + cfg_ok + "00",  # trailing byte
+        "FRAcfg": "1;255;4;0;2;" + cfg_ok,  # the config payload under the block-request sub-type
         "FX": "1;255;4;0;4;abc",  # stream sub-type without handler
     }
     return out
 
 
-QUICK = ["FCA", "FCB", "FCU", "FRA0", "FRA7", "FRA16", "FRA12", "FRA77", "FRB0", "FCAtrunc", "FCAnonhex", "FRAodd", "FRAempty", "FX"]
+QUICK = ["FCA", "FCB", "FCU", "FRA0", "FRA7", "FRA16", "FRA12", "FRA77", "FRB0", "FCAtrunc", "FCAnonhex", "FRAodd", "FRAempty", "FRAlong", "FCAlong", "FX"]
 ALL = list(stream_lines())
 
 
@@ -51,7 +53,7 @@ class C10Spec(explore.Spec):
         st = stream_lines()
         names = QUICK if self.tier == "quick" else ALL
         evs = [alpha.rx(st[n]) for n in names]
-        evs += alpha.events(v, ["SA0", "SB0", "PA", "PB", "CA1", "CA0"])  # CA1: a NEW child presents itself (not a node presentation)
+        evs += alpha.events(v, ["SA0", "SB0", "PA", "PB", "CA1", "CA0", "WA"])  # WA (2.x): A announces smart sleep  # CA1: a NEW child presents itself (not a node presentation)
         evs += [
             ("fw", 1, 1, 1, "F1"),
             ("fw", (1, 2), 1, 1, "F1"),
@@ -64,12 +66,18 @@ class C10Spec(explore.Spec):
             ("fw", 1, 1, 1, "missing"),  # bad path for a type/version whose image is already cached
             ("fw", 1, 1, 1, "invalid"),
             ("fw", 1, "x", 1, "F1"),
+            ("fw", 1, "1", "1", "F1"),  # type/version as convertible strings (config file, service call)
+            ("fw", 2, "1", " 1", None),
         ]
         return evs
 
     def roots(self, cfg):
         t = alpha.lines(cfg["version"])
-        return [tuple(alpha.rx(t[n]) for n in ("PA", "CA0", "PB", "CB0"))]
+        out = [tuple(alpha.rx(t[n]) for n in ("PA", "CA0", "PB", "CB0"))]
+        if "WA" in t and (self.tier != "quick" or cfg.get("flavour") != "async"):
+            # A asleep (smart sleep announced): stream replies must still be immediate and the session must still run
+            out.append(tuple(alpha.rx(t[n]) for n in ("PA", "CA0", "WA", "PB", "CB0")))
+        return out
 
     def new_monitor(self, cfg):
         return GatewayMonitor(PROP, cfg["version"], {"ota", "replies", "exc"})
